@@ -1,6 +1,7 @@
 import XdistModel.Sched.WorkSteal
 import XdistProofs.Contract.Spec
 import XdistProofs.Contract.Invariants
+import XdistProofs.Contract.Wire
 import XdistProofs.Lemmas.Except
 /-!
   `WorkStealingScheduling` refines the contract on the view `(pending, node2pending, steal_requested_from_node)`.
@@ -728,5 +729,199 @@ theorem runOps_inv {s s' : State τ} {e e' : Env} {g g' : Ghost} {ops : List (SO
       simp only [hst] at h hl
       obtain ⟨hf1, hk1, hb1⟩ := step_bal hf hk hb hl.1 hst
       exact ih hf1 hk1 hb1 (step_started hf hk hs hst) hl.2 h
+
+/-! ### wire well-formedness and duplicate-freeness along scheduler calls (C16) -/
+
+theorem outAct_isOut {a : Act} (h : OutAct a) : IsOut a := by
+  cases a <;> simp_all [OutAct, IsOut]
+
+theorem outAct_guarded {a : Act} (h : OutAct a) : Guarded a := by
+  cases a <;> simp_all [OutAct, Guarded]
+
+theorem run_reports (v : View) (e : Env) (first : Nat) (col : List τ) (rest : AList Nat (List τ)) :
+    run v e ((rest.filter (fun p => p.2 ≠ col)).map (fun p => Act.report p.1 first)) =
+      some (v, { e with outs := e.outs ++ collectionDiffs first col rest }) := by
+  unfold collectionDiffs
+  generalize rest.filter (fun p => p.2 ≠ col) = l
+  induction l generalizing e with
+  | nil => simp [run]
+  | cons p t ih =>
+    simp only [List.map_cons, run, apply, Env.emit]
+    rw [ih]
+    simp
+
+/-- every act of every scheduler call is guarded: work stealing never addresses a node that is shutting down -/
+theorem step_acts {s s' : State τ} {e e' : Env} {op : SOp τ} {ret : Option τ}
+    (hf : Fresh s) (hk : KeysNodup s)
+    (h : step s e op = .ok (s', e', ret)) :
+    ∃ acts, run (view s) e acts = some (view s', e') ∧ (∀ a ∈ acts, Guarded a) := by
+  cases op with
+  | addNode n =>
+    simp only [step] at h
+    obtain ⟨s1, h1, h2⟩ := map_ok.1 h
+    simp at h2; obtain ⟨rfl, rfl, rfl⟩ := h2
+    obtain ⟨ha, _⟩ := addNode_ref (e := e) hk h1
+    exact ⟨[.register n], by simp [run, ha], by simp [Guarded]⟩
+  | addNodeCollection n c =>
+    simp only [step] at h
+    obtain ⟨s1, h1, h2⟩ := map_ok.1 h
+    simp at h2; obtain ⟨rfl, rfl, rfl⟩ := h2
+    obtain ⟨hv, _⟩ := addNodeCollection_view h1
+    exact ⟨[], by simp [run, hv], by simp⟩
+  | schedule =>
+    simp only [step] at h
+    obtain ⟨⟨s1, e1⟩, h1, h2⟩ := map_ok.1 h
+    simp at h2; obtain ⟨rfl, rfl, rfl⟩ := h2
+    cases schedule_shape hf hk h1 with
+    | again hsome r =>
+      obtain ⟨⟨acts, hr, p⟩, _⟩ := r
+      exact ⟨acts, hr, fun a ha => outAct_guarded (p a ha)⟩
+    | mismatch first col rest hreg hne hs he =>
+      subst hs; subst he
+      refine ⟨_, run_reports _ _ first col rest, ?_⟩
+      intro a ha
+      obtain ⟨p, _, rfl⟩ := List.mem_map.1 ha
+      simp [Guarded]
+    | first first col rest hcn hreg hall hcol acts r p hks =>
+      refine ⟨_, r, ?_⟩
+      intro a ha
+      rcases List.mem_cons.1 ha with rfl | ha
+      · simp [Guarded]
+      · exact outAct_guarded (p a ha)
+  | markComplete n i slow =>
+    simp only [step] at h
+    obtain ⟨⟨s1, e1⟩, h1, h2⟩ := map_ok.1 h
+    simp at h2; obtain ⟨rfl, rfl, rfl⟩ := h2
+    obtain ⟨acts, r, p, _⟩ := markComplete_ref hk h1
+    refine ⟨_, r, ?_⟩
+    intro a ha
+    rcases List.mem_cons.1 ha with rfl | ha
+    · simp [Guarded]
+    · exact outAct_guarded (p a ha)
+  | markPending t =>
+    simp only [step] at h
+    obtain ⟨⟨s1, e1⟩, h1, h2⟩ := map_ok.1 h
+    simp at h2; obtain ⟨rfl, rfl, rfl⟩ := h2
+    obtain ⟨col, idx, acts, hc, hi, r, p, _⟩ := markPending_ref hk h1
+    refine ⟨_, r, ?_⟩
+    intro a ha
+    rcases List.mem_cons.1 ha with rfl | ha
+    · simp [Guarded]
+    · exact outAct_guarded (p a ha)
+  | removePending n is =>
+    simp only [step] at h
+    obtain ⟨⟨s1, e1⟩, h1, h2⟩ := map_ok.1 h
+    simp at h2; obtain ⟨rfl, rfl, rfl⟩ := h2
+    obtain ⟨acts, r, p, _⟩ := removePending_ref hk h1
+    refine ⟨_, r, ?_⟩
+    intro a ha
+    rcases List.mem_cons.1 ha with rfl | ha
+    · simp [Guarded]
+    · exact outAct_guarded (p a ha)
+  | removeNode n =>
+    simp only [step] at h
+    obtain ⟨book, acts, hl, r, p, _, _⟩ := removeNode_ref hk h
+    refine ⟨_, r, ?_⟩
+    intro a ha
+    rcases List.mem_cons.1 ha with rfl | ha
+    · simp [Guarded]
+    · exact outAct_guarded (p a ha)
+
+/-- **Wire theorem for `WorkStealingScheduling`** (one call), unconditionally. -/
+theorem step_wire {s s' : State τ} {e e' : Env} {op : SOp τ} {ret : Option τ}
+    (hf : Fresh s) (hk : KeysNodup s) (h1 : NoAfter e.outs) (h2 : SentSync e)
+    (h : step s e op = .ok (s', e', ret)) : NoAfter e'.outs ∧ SentSync e' := by
+  obtain ⟨acts, r, p⟩ := step_acts hf hk h
+  exact run_wire p h1 h2 r
+
+def total (s : State τ) : Nat := match s.collection with | some col => col.length | none => 0
+
+theorem step_nodup_bounded {s s' : State τ} {e e' : Env} {op : SOp τ} {ret : Option τ}
+    (hf : Fresh s) (hk : KeysNodup s) (hn : (view s).all.Nodup) (hb : Bounded (total s) (view s))
+    (hl : OpLegal s op)
+    (hreq : ∀ t col idx, op = .markPending t → s.collection = some col → PyList.index col t = .ok idx →
+              idx ∉ (view s).all)
+    (h : step s e op = .ok (s', e', ret)) :
+    (view s').all.Nodup ∧ Bounded (total s') (view s') := by
+  cases op with
+  | addNode n =>
+    simp only [step] at h
+    obtain ⟨s1, h1, h2⟩ := map_ok.1 h
+    simp at h2; obtain ⟨rfl, rfl, rfl⟩ := h2
+    obtain ⟨ha, st, _⟩ := addNode_ref (e := e) hk h1
+    have ht : total s1 = total s := by simp [total, st.2.2]
+    rw [ht]
+    exact ⟨nodup_step hn (by simp [Legal]) (by intro i hi; simp at hi) ha,
+      bounded_step hb (by simp [Legal]) (by intro i hi; simp at hi) (by intro t ht; simp at ht) ha⟩
+  | addNodeCollection n c =>
+    simp only [step] at h
+    obtain ⟨s1, h1, h2⟩ := map_ok.1 h
+    simp at h2; obtain ⟨rfl, rfl, rfl⟩ := h2
+    obtain ⟨hv, hc, _, _⟩ := addNodeCollection_view h1
+    have ht : total s1 = total s := by simp [total, hc]
+    rw [ht, hv]; exact ⟨hn, hb⟩
+  | schedule =>
+    simp only [step] at h
+    obtain ⟨⟨s1, e1⟩, h1, h2⟩ := map_ok.1 h
+    simp at h2; obtain ⟨rfl, rfl, rfl⟩ := h2
+    cases schedule_shape hf hk h1 with
+    | again hsome r =>
+      obtain ⟨⟨acts, hr, p⟩, st, _⟩ := r
+      have ht : total s1 = total s := by simp [total, st.2.2]
+      rw [ht]
+      exact ⟨nodup_out_run hn (fun a ha => outAct_isOut (p a ha)) hr,
+        bounded_out_run hb (fun a ha => outAct_isOut (p a ha)) hr⟩
+    | mismatch first col rest hreg hne hs he => subst hs; exact ⟨hn, hb⟩
+    | first first col rest hcn hreg hall hcol acts r p hst =>
+      have ht : total s1 = col.length := by simp [total, hcol]
+      rw [ht]
+      have hb0 : Bounded col.length (view s) := by
+        intro i hi
+        have := hf hcn
+        rw [this] at hi; simp at hi
+      exact ⟨nodup_head_out hn (by simp [Legal]) (by intro i hi; simp at hi) (fun a ha => outAct_isOut (p a ha)) r,
+        bounded_head_out hb0 (by simp [Legal]) (by intro i hi; simp at hi)
+          (by intro t ht; simp at ht; exact ht.symm) (fun a ha => outAct_isOut (p a ha)) r⟩
+  | markComplete n i slow =>
+    simp only [step] at h
+    obtain ⟨⟨s1, e1⟩, h1, h2⟩ := map_ok.1 h
+    simp at h2; obtain ⟨rfl, rfl, rfl⟩ := h2
+    obtain ⟨acts, r, p, st, _⟩ := markComplete_ref hk h1
+    have ht : total s1 = total s := by simp [total, st.2.2]
+    rw [ht]
+    exact ⟨nodup_head_out hn (by simp [Legal]) (by intro i hi; simp at hi) (fun a ha => outAct_isOut (p a ha)) r,
+      bounded_head_out hb (by simp [Legal]) (by intro i hi; simp at hi) (by intro t ht; simp at ht)
+        (fun a ha => outAct_isOut (p a ha)) r⟩
+  | markPending t =>
+    simp only [step] at h
+    obtain ⟨⟨s1, e1⟩, h1, h2⟩ := map_ok.1 h
+    simp at h2; obtain ⟨rfl, rfl, rfl⟩ := h2
+    obtain ⟨col, idx, acts, hc, hi, r, p, st, _⟩ := markPending_ref hk h1
+    have ht : total s1 = total s := by simp [total, st.2.2]
+    rw [ht]
+    have hlt : idx < total s := by simp [total, hc]; exact index_lt_of_ok hi
+    exact ⟨nodup_head_out hn (by simp [Legal])
+        (by intro i hi'; simp at hi'; subst hi'; exact hreq t col idx rfl hc hi) (fun a ha => outAct_isOut (p a ha)) r,
+      bounded_head_out hb (by simp [Legal]) (by intro i hi'; simp at hi'; subst hi'; exact hlt)
+        (by intro t ht; simp at ht) (fun a ha => outAct_isOut (p a ha)) r⟩
+  | removePending n is =>
+    simp only [step] at h
+    obtain ⟨⟨s1, e1⟩, h1, h2⟩ := map_ok.1 h
+    simp at h2; obtain ⟨rfl, rfl, rfl⟩ := h2
+    obtain ⟨acts, r, p, st, _⟩ := removePending_ref hk h1
+    have ht : total s1 = total s := by simp [total, st.2.2]
+    rw [ht]
+    have hl' : Legal (view s) (.unsched n is) := hl
+    exact ⟨nodup_head_out hn hl' (by intro i hi; simp at hi) (fun a ha => outAct_isOut (p a ha)) r,
+      bounded_head_out hb hl' (by intro i hi; simp at hi) (by intro t ht; simp at ht)
+        (fun a ha => outAct_isOut (p a ha)) r⟩
+  | removeNode n =>
+    simp only [step] at h
+    obtain ⟨book, acts, hlk, r, p, st, _, _⟩ := removeNode_ref hk h
+    have ht : total s' = total s := by simp [total, st.2.2]
+    rw [ht]
+    exact ⟨nodup_head_out hn (by simp [Legal]) (by intro i hi; simp at hi) (fun a ha => outAct_isOut (p a ha)) r,
+      bounded_head_out hb (by simp [Legal]) (by intro i hi; simp at hi) (by intro t ht; simp at ht)
+        (fun a ha => outAct_isOut (p a ha)) r⟩
 
 end Xdist.WorkSteal
